@@ -150,6 +150,14 @@ def run(check, ctx):
     for r in rows():
         run_row(check, repo, r)
     c01_extra.run(check, ctx, labels)
+    # the tag is computed over the ciphertext whatever buffer the output goes to (in-place decryption included)
+    from . import c09_extra as _c09x
+    for modname, cls, macs, sink in _c09x.AEAD:
+        _c09x.run_order(check, repo, modname, cls, macs, sink)
+    # OMAC/CMAC tags (EAX, SIV): last-block rule with a re-used cache; OCB: pending associated data is authenticated
+    from .c03_extra import cmac_rows
+    cmac_rows(check, repo)
+    c01_extra.ocb_pending_aad(check, repo)
     # the native Poly1305 (tag of ChaCha20-Poly1305) on a boundary table of limb values
     from . import c_poly
     c_poly.poly_tables(check, ctx)
